@@ -49,6 +49,13 @@ type VC struct {
 	reachTo  map[int]map[int]bool // block -> set of blocks that can reach it in the cut DAG (incl. itself)
 	obls     []*Obligation
 	nfresh   int
+	abbr       map[string]string // let-bound names of large specification-function arguments -> full term
+	abbrActive int
+	kinds      []byte // per assert: 0 ordinary, 'L' assumed lemma (used only by the light query)
+	curKind    byte
+	nPre       int // asserts [0,nPre) are typing facts of the parameters, axioms and the precondition
+	hasLemmas  bool
+	compTrace  map[string]bool // when non-nil: heap components read through compAt (reads-clause completeness check)
 	warnings []string
 	strLits  map[string]string
 	structs  map[string]*types.Struct // datatype name -> struct type
@@ -76,9 +83,11 @@ type Obligation struct {
 	Expect  string // "" (must be unsat) or "sat" for vacuity canaries
 	Agree   int
 	Tag     int // top-level block of the obligation (-1: whole function)
+	MoreSplits []string // further candidates, used only to sub-divide a case that is not decided in time
 	Splits  []string // Boolean terms to case-split on when the monolithic query is not decided quickly
 	Cases   int
 	caseMillis int64
+	lightMode  bool
 	Desc    string
 }
 
@@ -130,8 +139,14 @@ func (vc *VC) assert(t string) {
 	if t == "true" {
 		return
 	}
+	if vc.abbrActive > 0 {
+		// a fact emitted while a specification function's body is being translated lives outside the scope of the
+		// function's let-bound argument names: use the full terms
+		t = vc.expandAbbr(t)
+	}
 	vc.asserts = append(vc.asserts, t)
 	vc.tags = append(vc.tags, vc.curTag)
+	vc.kinds = append(vc.kinds, vc.curKind)
 }
 
 // assertGlobal adds a fact that does not belong to a program point (definitional axioms, typing closures of
@@ -160,7 +175,7 @@ func (vc *VC) oblige(o *Obligation) {
 	if o.Tag >= 0 && vc.reachTo != nil {
 		anc = vc.reachTo[o.Tag]
 	}
-	for i := len(vc.splitCands) - 1; i >= 0 && len(o.Splits) < maxSplits; i-- {
+	for i := len(vc.splitCands) - 1; i >= 0 && len(o.MoreSplits) < 3; i-- {
 		c := vc.splitCands[i]
 		if anc != nil && c.tag >= 0 && !anc[c.tag] {
 			continue
@@ -168,7 +183,11 @@ func (vc *VC) oblige(o *Obligation) {
 		if len(c.both) == 2 && anc != nil && !(anc[c.both[0]] && anc[c.both[1]]) {
 			continue // the obligation lies on one side of this branch: the condition is implied by reachability
 		}
-		o.Splits = append(o.Splits, c.term)
+		if len(o.Splits) < maxSplits {
+			o.Splits = append(o.Splits, c.term)
+		} else {
+			o.MoreSplits = append(o.MoreSplits, c.term)
+		}
 	}
 	vc.obls = append(vc.obls, o)
 }
@@ -732,3 +751,23 @@ func (vc *VC) originID(fn string) string {
 }
 
 const maxSplits = 6
+
+var abbrRe = regexp.MustCompile(`l![A-Za-z0-9_]+![0-9]+`)
+
+// expandAbbr replaces let-bound argument names by the terms they stand for (recursively).
+func (vc *VC) expandAbbr(t string) string {
+	for i := 0; i < 20 && strings.Contains(t, "l!"); i++ {
+		changed := false
+		t = abbrRe.ReplaceAllStringFunc(t, func(n string) string {
+			if d, ok := vc.abbr[n]; ok {
+				changed = true
+				return d
+			}
+			return n
+		})
+		if !changed {
+			break
+		}
+	}
+	return t
+}
